@@ -11,6 +11,12 @@ values, NaN == NaN).  Evaluators: ``onnx.reference.ReferenceEvaluator`` and onnx
 optimisations.  A pass that raises produces no transformed model (counted ``pass_error:<Pass>``; the
 successful prefix is judged instead).
 
+Models are drawn with the ``extra`` gen_exec features (function chains forwarding attribute parameters under other
+names; function-internal names reused from the call site's name space), and InlinePass is also driven with criteria
+that split a call chain at different levels (leaf / non-leaf / name parity), so that kept functions receive inlined
+bodies.  The reference evaluator is not asked about a P(M) in which a nested body re-declares an enclosing name
+(probe: it resolves such a name to the enclosing value).
+
 Signature of a violation: the pass sequence is shrunk (ddmin), the pass after which the clause first
 holds is the culprit, and the model is regenerated with one planted gen_exec feature at a time to
 find a feature that alone suffices: ``<clause>|<Pass>|<feature>`` (``<clause>|<Pass>`` for checker
@@ -37,7 +43,7 @@ from vfpy.shrink import ddmin
 
 ID = "C05"
 LEVEL = "exploration"
-RULE = ("a case is one admitted gen_exec model (passes onnx.checker, executed by >=1 evaluator on 3 input sets incl. "
+RULE = ("a case is one admitted gen_exec model (default + extra features; passes onnx.checker, executed by >=1 evaluator on 3 input sets incl. "
         "zeros/negatives/NaN/inf) x 3 (quick) / 4 (thorough) random sequences of 1-4 built-in passes with default or varied "
         "parameters, applied to a rebuilt or a deserialised copy; every sequence is one evaluation; non-trivial = the "
         "sequence reported modified=True at least once and the model has a subgraph, a function or a planted duplicate; "
@@ -50,6 +56,10 @@ ASSUMPTIONS = [
     "(evaluators_split), so a silently wrong evaluator cannot raise an alarm on its own when the other one can judge",
     "the reference evaluator is not used on models with function overloads (probe: it resolves calls by (domain,name) "
     "only and silently runs the wrong body)",
+    "the reference evaluator is not asked about a P(M) in which a nested body declares or defines a name that an "
+    "enclosing graph uses too (probe: onnx/reference/ops/op_loop.py copies every enclosing result over the body's inputs, "
+    "so a same-named formal input starts with the enclosing graph's value; onnxruntime lets the innermost declaration "
+    "win, as scoping demands)",
     "inputs are fed positionally to the non-initializer graph inputs; names of inputs/outputs may change (report-only)",
     "initializer-backed graph inputs are inputs too: up to 2 extra runs per model override them by name; such a run is "
     "replayed on P(M) only if every overridden name is still an initializer-backed input with the same default there",
@@ -266,26 +276,31 @@ def dangling_calls(proto, once_defined=None) -> set[tuple[str, str, str]]:
     return dangling
 
 
-def shadowed_names(proto) -> set[str]:
-    """Names that a nested graph declares or defines (input, initializer, node output) although an enclosing graph
-    of the same model graph / function body uses the name too.  The generator never produces such models; a pass
+def shadowed_names(proto, declared_only: bool = False) -> set[str]:
+    """Names that a nested graph declares or defines (input, initializer; node output unless ``declared_only``)
+    although the name is VISIBLE there: an input, an initializer or the output of an earlier node of an enclosing
+    graph (of the same model graph / function body).  A later node of an enclosing graph may reuse a name local
+    to an earlier sibling subgraph - the generator plants that; it never produces a hidden visible name.  A pass
     may (the checker tolerates a subgraph *input* or *initializer* that hides an outer name)."""
     found: set[str] = set()
 
-    def names_of(graph_nodes, inputs, initializers) -> set[str]:
-        return {i.name for i in inputs} | {t.name for t in initializers} | {o for n in graph_nodes for o in n.output if o}
+    def declared(g) -> set[str]:
+        return {i.name for i in g.input} | {t.name for t in g.initializer}
 
-    def walk(nodes, outer: set[str]) -> None:
+    def walk(nodes, visible: set[str]) -> None:
+        visible = set(visible)
         for n in nodes:
             for a in n.attribute:
                 for g in ([a.g] if a.type == onnx.AttributeProto.GRAPH else list(a.graphs)):
-                    own = names_of(g.node, g.input, g.initializer)
-                    found.update(own & outer)
-                    walk(g.node, outer | own)
-    g = proto.graph
-    walk(g.node, names_of(g.node, g.input, g.initializer))
+                    own = declared(g)
+                    found.update(own & visible)
+                    if not declared_only:
+                        found.update({o for m in g.node for o in m.output if o} & visible)
+                    walk(g.node, visible | own)
+            visible.update(o for o in n.output if o)
+    walk(proto.graph.node, declared(proto.graph))
     for f in proto.functions:
-        walk(f.node, set(f.input) | {o for n in f.node for o in n.output if o})
+        walk(f.node, set(f.input))
     return found
 
 
@@ -523,6 +538,25 @@ def _bn_inference_rewrite_observed(case: GE.Case, source: str, minimal, feats) -
     return tr1 < tr0 and (tr0 - tr1) > (t0 - t1)
 
 
+FORMAL_REUSE = "fn_subgraph_formal_name_reuse"
+
+
+def _nested_declaration_hides_outer_observed(case: GE.Case, source: str, minimal, feats) -> bool:
+    """Mechanism marker, observed on the regenerated minimal model: the culprit sequence leaves a nested body that
+    DECLARES (formal input / initializer) a name an enclosing graph uses, and M had no such name."""
+    try:
+        model, info = GE.model_from_seed(case.info["seed"], case.info["size"], feats)
+        small, _ = GE.admit(model, info, random.Random(f"{case.info['seed']}:inputs"))
+        if small is None or shadowed_names(small.proto, declared_only=True):
+            return False
+        after, applied, _, _ = apply_flat(small, source, minimal)
+        if after is None or len(applied) != len(minimal):
+            return False
+        return bool(shadowed_names(ir.to_proto(after), declared_only=True))
+    except Exception:  # noqa: BLE001 - the marker is only ever used to name a mechanism more precisely
+        return False
+
+
 def report(ctx, case: GE.Case, source: str, specs, clause: str, message: str) -> None:
     """Shrink the sequence, find the pass that first breaks the clause and name the mechanism:
     ``clause|pass|planted feature that alone suffices``.  For serialisation/checker clauses (the
@@ -532,7 +566,18 @@ def report(ctx, case: GE.Case, source: str, specs, clause: str, message: str) ->
     minimal, culprit, clause = shrink(case, source, specs, clause)
     seen = memo.setdefault((clause, culprit[0]), [])
     needs_detail = clause.startswith(("outputs-differ", "io-changed"))
-    detail, feats = attribute(case, source, minimal, clause, first=seen, deep=needs_detail)
+    twin = [[s[0], STABLE_TWIN.get(s[1], s[1])] if s[0] == "InlinePass" else s for s in minimal]
+    if culprit[0] == "InlinePass" and twin != minimal and _violates(case, source, twin, clause) is None:
+        # the same sequence with the first verdict of the criteria frozen does not violate the clause
+        detail, feats, needs_detail = "criteria-verdict-changes-during-pass", list(case.info["features"]), True
+    else:
+        detail, feats = attribute(case, source, minimal, clause, first=seen, deep=needs_detail)
+    if needs_detail and culprit[0] == "InlinePass" and FORMAL_REUSE in feats and detail != FORMAL_REUSE and \
+            (detail == "multi" or detail.startswith(FORMAL_REUSE + "+")) and \
+            _nested_declaration_hides_outer_observed(case, source, minimal, feats):
+        # the planted pattern needs company to become visible at an output (or an ambient mode was planted with it):
+        # the hiding declaration in an inlined body is observed, the mechanism is that of the feature alone
+        detail = FORMAL_REUSE
     if detail == "multi" and needs_detail:
         # no single planted feature suffices: name the 1-minimal feature set; when that set needs the
         # training-mode BatchNormalization and the inference-mode rewrite is observed on it, the other
